@@ -118,4 +118,8 @@ for tier, specs in (("quick", [(2, 18, 1), (3, 20, 0)]), ("thorough", [(2, 18, 2
     for (N, n, P) in specs:
         _c20[tier].append({"harness": "vxH20Burst", "args": [str(N), str(n)], "files": ["api", "c20"], "preempt": P, "race": True, "reach": ["final"], "timeout_s": 1500,
                            "bounds": f"capacity {N}, {n} Log calls back to back (the logger's queue holds 16), then a Filter with symbolic type after quiescence; <= {P} preemptions"})
+for tier, specs in (("quick", [(3, 4, 2, 1), (2, 4, 3, 0)]), ("thorough", [(3, 6, 2, 2), (3, 6, 3, 1), (2, 6, 4, 0)])):
+    for (N, n, callers, P) in specs:
+        _c20[tier].append({"harness": "vxH20FilterConc", "args": [str(N), str(n), str(callers)], "files": ["api", "c20"], "preempt": P, "race": True, "reach": ["final"], "timeout_s": 1500,
+                           "bounds": f"capacity {N}, {n} Log calls, then {callers} goroutines calling Filter at once with different owner/type; each result checked against its own arguments; <= {P} preemptions"})
 json.dump(_c20, open(os.path.join(D, "C20.json"), "w"), indent=1)
